@@ -19,6 +19,10 @@ var mptConfigs = []exec.MPTConfig{
 	{Store: "level", Version: 3, InitVer: 2, Init: [][2]string{{"00", "a"}, {"0011", "b"}, {"1000", "a"}}},
 	{Store: "levelp", Version: 1, InitVer: 1, Init: [][2]string{{"", "a"}, {"0100", "b"}, {"0101", "b"}, {"10", "a"}}},
 	{Store: "mem", Version: 7},
+	// lower content of an older version with branches of exactly two children (leaf + leaf, leaf + extension, leaf + branch)
+	{Store: "level", Version: 5, InitVer: 2, Init: [][2]string{{"0a10", "a"}, {"0a1f", "b"}, {"0b", "c"}}},
+	{Store: "level", Version: 4, InitVer: 1, Init: [][2]string{{"10", "a"}, {"2000", "b"}, {"2011", "c"}}},
+	{Store: "levelp", Version: 6, InitVer: 3, Init: [][2]string{{"0000", "a"}, {"0011", "b"}, {"01", "a"}}},
 }
 
 func runMPT(args []string) (map[string]any, error) {
